@@ -17,6 +17,7 @@ EXPLANATION = (
     "syntax error raised because of what a parsed construct is, is not located at the context its sub-parser left behind; "
     "(NAME-SPAN) a resolution error that quotes the name of an identifier node is located at that identifier's span."
     " (PARSE-ERROR-DROPPED) a speculative sub-parse whose errors are discarded and replaced by whatever fails next (two known findings); (NO-STD prelude) collisions with the prelude's imports are located in the prelude (known finding)."
+    " (CHILD-SPAN) a child checked against its own positional or named expectation (argument i against parameter i, a blob field value against the field of that name) is blamed at the child's span."
 )
 UNDECIDED = "that each error's span is the *most helpful* one (which child's span is chosen is a matter of taste); column exactness of rendered underlines."
 
